@@ -254,7 +254,36 @@ OnTlscStall ==
   /\ Ev.request_completed /\ Ev.request_result # "Ok" /\ Ev.task_ended_after_shutdown
   /\ UNCHANGED <<sc, up, tracker, nextId, conn, pend, evp, db, exp, cur>> /\ Step
 
-TraceNext == OnTlscCfg \/ OnCState \/ OnTlsc \/ OnTlscStall \/ OnWildCfg \/ OnWild \/ OnCfg \/ OnListening \/ OnInfo \/ OnConnecting \/ OnFilter \/ OnTrack \/ OnConnected \/ OnUntrack
+(***************************************************************************)
+(* C13 black-box: the plain TCP channel task on real sockets (no connector *)
+(* hook).  The task is held inside the listener notification of one state  *)
+(* while a command is handed in; the listener path must stay legal (the    *)
+(* relation of Client_MC!LegalNext), shutdown / dropping the last handle   *)
+(* must end the task with Shutdown exactly once and last, a disable must   *)
+(* leave it Disabled and alive.                                            *)
+(***************************************************************************)
+LcLegal(prev, nxt) ==
+  CASE nxt = "Disabled" -> prev \in {"Connected", "Connecting", "WaitAfterFailedConnect", "WaitAfterDisconnect"}
+    [] nxt = "Connecting" -> prev \in {"Disabled", "WaitAfterFailedConnect", "WaitAfterDisconnect", "Connected"}
+    [] nxt = "Connected" -> prev = "Connecting"
+    [] nxt = "WaitAfterFailedConnect" -> prev = "Connecting"
+    [] nxt = "WaitAfterDisconnect" -> prev = "Connected"
+    [] nxt = "Shutdown" -> prev # "Shutdown"
+    [] OTHER -> FALSE
+OnTcpcCfg == Is("tcpc_cfg") /\ exp = <<>> /\ UNCHANGED <<sc, up, tracker, nextId, conn, pend, evp, db, exp, cur>> /\ Step
+OnTcpcLc ==
+  /\ Is("tcpc_lc")
+  /\ Ev.gate_reached
+  /\ LET s == Ev.states
+         n == Len(s)
+     IN /\ n >= 1 /\ s[1] = "Disabled"
+        /\ \A i \in 2..n : LcLegal(s[i - 1], s[i])
+        /\ IF Ev.cmd \in {"shutdown", "drop"}
+           THEN Ev.task_ended /\ s[n] = "Shutdown"
+           ELSE ~Ev.task_ended /\ s[n] = "Disabled" /\ n > Ev.gate_index - 1
+  /\ UNCHANGED <<sc, up, tracker, nextId, conn, pend, evp, db, exp, cur>> /\ Step
+
+TraceNext == OnTcpcCfg \/ OnTcpcLc \/ OnTlscCfg \/ OnCState \/ OnTlsc \/ OnTlscStall \/ OnWildCfg \/ OnWild \/ OnCfg \/ OnListening \/ OnInfo \/ OnConnecting \/ OnFilter \/ OnTrack \/ OnConnected \/ OnUntrack
              \/ OnTls \/ OnFlood \/ OnFloodReads \/ OnReq \/ OnReads \/ OnWrite \/ OnAuth \/ OnRsp \/ OnClose \/ OnSend \/ OnPartial
              \/ OnPeerView \/ OnCmd
 
